@@ -14,6 +14,8 @@ from typing import Literal
 import numpy as np
 import numpy.typing as npt
 import ufl
+import ufl.utils.counted
+import ufl.utils.sorting
 
 import ffcx
 import ffcx.codegeneration
@@ -59,6 +61,18 @@ def compute_signature(
             domains = ufl.algorithms.analysis.unique_tuple(domains)
             assert all([isinstance(domain, ufl.Mesh) for domain in domains])
             rn.update(dict((d, i) for i, d in enumerate(domains)))
+
+            # Every other counted terminal (e.g. the label of a ufl.variable) is
+            # numbered per type by order of its count, as UFL does for forms:
+            # its process-wide count must not enter the signature
+            next_number: dict[type, int] = {}
+            for counted in ufl.utils.sorting.sorted_by_count(
+                c
+                for c in ufl.algorithms.analysis.extract_type(expr, ufl.utils.counted.Counted)
+                if c not in rn
+            ):
+                rn[counted] = next_number.get(counted._counted_class, 0)
+                next_number[counted._counted_class] = rn[counted] + 1
 
             # Hash on UFL signature and points
             signature = ufl.algorithms.signature.compute_expression_signature(expr, rn)
